@@ -37,8 +37,14 @@
      Bare        the participants only construct FMMULock(path) and later remove() it (the class
                  used on its own); only WindowsDistinct is meaningful then
 
+   Environment: a participant may crash (kill -9) between two calls (MaxCrash), and the calls of
+   the start-up that go to the kernel - connect (the raw socket), create_map, attach, obj_pin,
+   obj_get - may FAIL with an OSError (MaxFault; f = TRUE in the step): the protocol's error
+   handlers then run (first participant: shutil.rmtree(lockdir); joiner: os.remove(own file)),
+   the exception leaves run(), and the property must still hold for everybody else.
+
    Each step is one gated call of the real code; Gate(pc) is the name of the call the
-   participant is parked at.  Eff(p, c) is the effect of letting p run to its next gate; c is
+   participant is parked at.  Eff(p, c, f) is the effect of letting p run to its next gate; c is
    the value random.randrange hands out in that span (a new ethertype after FileExistsError, the
    FMMU window number), 0 where none is drawn.                                              *)
 EXTENDS Integers, Sequences, FiniteSets, TLC
@@ -47,6 +53,7 @@ CONSTANTS Procs,        \* participants (strings)
           REth,         \* ethertypes randrange(0x3000, 0x6000) may return
           Addrs,        \* window numbers randrange(1, 512) may return
           MaxCrash,     \* participants that may crash (kill -9) between two operations
+          MaxFault,     \* failing kernel-facing calls during start-ups
           MaxPre,       \* preemption bound; -1: unbounded
           Mutex, LockedInit, Bare      \* protocol switches, see above
 
@@ -56,13 +63,14 @@ NoAtt == [o |-> None, t |-> None]
 NoDir == [ex |-> FALSE, m |-> {}]
 NoFm == [ex |-> FALSE, len |-> 0, bits |-> {}]
 
-VARIABLES sh, loc, crashes, pre, last
-pvars == <<sh, loc, crashes, pre, last>>
+VARIABLES sh, loc, crashes, faults, pre, last
+pvars == <<sh, loc, crashes, faults, pre, last>>
 
 GateOf == [m_open |-> "open:mutex", m_lock |-> "lock:mutex", m_close |-> "close:mutex",
            s_mlock |-> "lock:mutex", s_rmown |-> "remove:own", s_mclose |-> "close:mutex",
            mx_fail |-> "close:mutex",
            mkdtemp |-> "mkdtemp", t_xopen |-> "xopen", rename |-> "rename",
+           i_connect |-> "connect", j_connect |-> "connect",
            create_map |-> "create_map", i_rmpin |-> "remove:pin", attach |-> "attach",
            pinit |-> "pin", i_rmtree |-> "rmtree_lock",
            rmtree |-> "rmtree", j_xopen |-> "xopen", obj_get1 |-> "obj_get",
@@ -77,6 +85,7 @@ GateOf == [m_open |-> "open:mutex", m_lock |-> "lock:mutex", m_close |-> "close:
            fr_unlock |-> "unlock:fmmu", fr_unlockx |-> "unlock:fmmu",
            done |-> "-", failed |-> "-", crashed |-> "-"]
 Final == {"done", "failed", "crashed"}
+Faultable == {"i_connect", "create_map", "attach", "pinit", "j_connect", "obj_get1", "obj_get2"}
 (* the first call of the stop sequence depends on the protocol *)
 Gate(pcv) == IF pcv # "running" THEN GateOf[pcv]
              ELSE IF Bare THEN "lock:fmmu" ELSE IF Mutex THEN "open:mutex" ELSE "remove:own"
@@ -98,7 +107,7 @@ ChoiceSet(p) ==
     ELSE IF L.pc = "fm_trunc" THEN Addrs
     ELSE {0}
 
-Eff0(p, c) ==
+Eff0(p, c, f) ==
     LET L == loc[p]
         S == sh
         R(s, l) == [s |-> s, l |-> l]
@@ -112,6 +121,11 @@ Eff0(p, c) ==
                  THEN R([S EXCEPT !.lockdir.m = @ \ {L.own}], [L EXCEPT !.pc = "rmdir", !.ph = "stopping"])
                  ELSE R(S, Fail([L EXCEPT !.ph = "stopping"]))
         FrLock == R([S EXCEPT !.holder = p], [L EXCEPT !.pc = "fr_read", !.ph = "stopping"]) IN
+    IF f THEN    \* a kernel-facing call of the start-up fails: the branch's error handler runs next
+        IF L.pc \in {"i_connect", "create_map", "attach", "pinit"}
+        THEN R(S, [L EXCEPT !.pc = "i_rmtree", !.inst = FALSE])          \* first participant
+        ELSE R(S, [L EXCEPT !.pc = "j_rmown"])                          \* joiner
+    ELSE
     CASE L.pc = "m_open" -> R(S, [L EXCEPT !.pc = "m_lock"])       \* os.open(<if>.mutex, O_CREAT)
       [] L.pc = "m_lock" -> R([S EXCEPT !.mutex = p], [L EXCEPT !.pc = "mkdtemp"])      \* flock(LOCK_EX)
       [] L.pc = "m_close" ->           \* the start block is left: os.close releases the mutex
@@ -127,9 +141,10 @@ Eff0(p, c) ==
       [] L.pc = "rename" ->            \* os.rename(tmpdir, lockdir): target absent or empty
            IF ~S.lockdir.ex \/ S.lockdir.m = {}
            THEN R([S EXCEPT !.tmp[p] = 0, !.lockdir = [ex |-> TRUE, m |-> {L.own}]],
-                  [L EXCEPT !.pc = "create_map"])
+                  [L EXCEPT !.pc = "i_connect"])
            ELSE R(S, [L EXCEPT !.pc = "rmtree"])
       \* ---- installer
+      [] L.pc = "i_connect" -> R(S, [L EXCEPT !.pc = "create_map"])     \* EtherCat.connect
       [] L.pc = "create_map" ->
            R(S, [L EXCEPT !.pc = "i_rmpin", !.tab = p, !.inst = TRUE])
       [] L.pc = "i_rmpin" ->           \* os.remove(programs) of a stale pin, ignored if absent
@@ -148,7 +163,8 @@ Eff0(p, c) ==
       [] L.pc = "j_xopen" ->           \* open(lockdir/<eth>.lock, 'x')
            IF ~S.lockdir.ex THEN R(S, Fail(L))                     \* FileNotFoundError
            ELSE IF L.eth \in S.lockdir.m THEN R(S, [L EXCEPT !.eth = c])
-           ELSE R([S EXCEPT !.lockdir.m = @ \cup {L.eth}], [L EXCEPT !.pc = "obj_get1", !.own = L.eth])
+           ELSE R([S EXCEPT !.lockdir.m = @ \cup {L.eth}], [L EXCEPT !.pc = "j_connect", !.own = L.eth])
+      [] L.pc = "j_connect" -> R(S, [L EXCEPT !.pc = "obj_get1"])
       [] L.pc = "obj_get1" ->
            IF S.pin # None THEN R(S, [L EXCEPT !.pc = "mbx_openx", !.tab = S.pin])
            ELSE R(S, [L EXCEPT !.pc = "obj_get2"])                 \* sleep(0.1), second attempt
@@ -212,7 +228,7 @@ Eff0(p, c) ==
       [] L.pc = "fr_unlockx" -> R([S EXCEPT !.holder = None], Fail(L))
 
 (* a participant that has made its first call has started *)
-Eff(p, c) == LET r == Eff0(p, c) IN
+Eff(p, c, f) == LET r == Eff0(p, c, f) IN
              [s |-> r.s, l |-> IF r.l.ph = "idle" THEN [r.l EXCEPT !.ph = "starting"] ELSE r.l]
 
 CrashEff(p) == [s |-> [sh EXCEPT !.holder = IF @ = p THEN None ELSE @, !.mutex = IF @ = p THEN None ELSE @],
@@ -227,19 +243,22 @@ Free(q) == q = None \/ ~CanStep(q) \/ loc[q].pc = "running"
 Pre(p) == IF MaxPre < 0 THEN 0 ELSE IF last.p # p /\ ~Free(last.p) THEN pre + 1 ELSE pre
 
 PInit == /\ sh = Sh0 /\ loc = [p \in Procs |-> Loc0]
-         /\ crashes = 0 /\ pre = 0 /\ last = [p |-> None, a |-> "-", c |-> 0]
+         /\ crashes = 0 /\ faults = 0 /\ pre = 0 /\ last = [p |-> None, a |-> "-", c |-> 0, f |-> FALSE]
 
-PStep(p, c) == /\ CanStep(p) /\ c \in ChoiceSet(p)
-               /\ LET r == Eff(p, c) IN sh' = r.s /\ loc' = [loc EXCEPT ![p] = r.l]
-               /\ last' = [p |-> p, a |-> Gate(loc[p].pc), c |-> c]
-               /\ pre' = Pre(p) /\ (MaxPre >= 0 => pre' <= MaxPre)
-               /\ UNCHANGED crashes
+FaultSet(p) == IF faults < MaxFault /\ loc[p].pc \in Faultable THEN BOOLEAN ELSE {FALSE}
+
+PStep(p, c, f) == /\ CanStep(p) /\ c \in ChoiceSet(p) /\ f \in FaultSet(p)
+                  /\ LET r == Eff(p, c, f) IN sh' = r.s /\ loc' = [loc EXCEPT ![p] = r.l]
+                  /\ last' = [p |-> p, a |-> Gate(loc[p].pc), c |-> c, f |-> f]
+                  /\ pre' = Pre(p) /\ (MaxPre >= 0 => pre' <= MaxPre)
+                  /\ faults' = IF f THEN faults + 1 ELSE faults
+                  /\ UNCHANGED crashes
 PCrash(p) == /\ crashes < MaxCrash /\ loc[p].pc \notin Final /\ loc[p].ph # "idle"
              /\ LET r == CrashEff(p) IN sh' = r.s /\ loc' = [loc EXCEPT ![p] = r.l]
-             /\ last' = [p |-> p, a |-> "crash", c |-> 0]
+             /\ last' = [p |-> p, a |-> "crash", c |-> 0, f |-> FALSE]
              /\ pre' = Pre(p) /\ (MaxPre >= 0 => pre' <= MaxPre)
-             /\ crashes' = crashes + 1
-PNext == \E p \in Procs : PCrash(p) \/ \E c \in ChoiceSet(p) : PStep(p, c)
+             /\ crashes' = crashes + 1 /\ UNCHANGED faults
+PNext == \E p \in Procs : PCrash(p) \/ \E c \in ChoiceSet(p) : \E f \in FaultSet(p) : PStep(p, c, f)
 PSpec == PInit /\ [][PNext]_pvars
 
 -----------------------------------------------------------------------------
